@@ -13,7 +13,7 @@ PID = "C07"
 LEVEL = "exploration"
 RULE = (
     "Date ranges: all ordered, equal and reversed pairs of a boundary date set x joiners {-, to, bis, until, between..and, von..bis, from..to}.  Clock ranges: hours 0-23 x 0-23 x minute variants "
-    "{H:00-H:00, H:30-H:35, 'H-H' digits} x joiners x contexts {8.5.2018, tomorrow, monday, none}.  Oracle: start is A on the context day; if B is after A on that day the end is B that day; "
+    "{H:00-H:00, H:30-H:35, 'H-H' digits} x joiners x contexts {8.5.2018, tomorrow, monday, none, 31.12.2018, 28.2.2020, 30.4.2019}.  Oracle: start is A on the context day; if B is after A on that day the end is B that day; "
     "otherwise the end is B moved 12 hours (only when both written hours <= 12) or to the next day; always start < end <= start + 24h.  Reversed date pairs must not yield an inverted interval.  "
     "Bounds: every spelling of the before/after patterns x X in {5pm, 17:30, 8.5.2018, monday}: exactly the stated side is set and equals X parsed alone.  "
     "Non-trivial = clock pair needing a wrap, or any date pair/bound case; distinct = distinct (text, ts)."
@@ -48,13 +48,19 @@ def date_join(a, b, j):
 
 
 JOINS = ["-", " - ", "to", "bis", "until", "between", "zwischen", "von", "from"]
-CONTEXTS = [("date", "8.5.2018 "), ("tomorrow", "tomorrow "), ("weekday", "monday "), ("none", "")]
+CONTEXTS = [("date", "8.5.2018 "), ("tomorrow", "tomorrow "), ("weekday", "monday "), ("none", ""), ("yearend", "31.12.2018 "), ("leapday", "28.2.2020 "), ("monthend", "30.4.2019 ")]
 
 
 def ctx_day(ctx, ts):
     d = ts.date()
     if ctx == "date":
         return date(2018, 5, 8)
+    if ctx == "yearend":
+        return date(2018, 12, 31)
+    if ctx == "leapday":
+        return date(2020, 2, 28)
+    if ctx == "monthend":
+        return date(2019, 4, 30)
     if ctx == "tomorrow":
         return refcal.add_days(d, 1)
     if ctx == "weekday":
@@ -97,6 +103,8 @@ def plan(tier, seed):
                         ta = clock_text(ha, ma, vname)
                         tb = clock_text(hb, mb, vname)
                         for cname, cprefix in CONTEXTS:
+                            if cname in ("yearend", "leapday", "monthend") and (vname == "digits" or (tier == "quick" and j not in ("-", "bis"))):
+                                continue  # roll-over days: explicit clock notations (quick: two joiners)
                             yield ("clock", cprefix + date_join(ta, tb, j), (ha, ma), (hb, mb), (j, vname, cname), TS)
         for alt, side in bounds:
             for x in xs:
